@@ -104,12 +104,14 @@ func buildCase(cfg string, ref, got buildResult) gal.Case {
 		// BuildIndex appends the image manifests (named by digest) in index order, then index.json
 		manifests = append(manifests, im.Manifest)
 	}
-	term := fmt.Sprintf("{| b_cfg := %s; b_dim := %s; b_group := %s; b_ref := %s; b_got := %s; b_failed := %s; b_members := %s; b_images := %s; b_manifests := %s |}",
+	var date0 int64
+	fmt.Sscan(got.Cell.SDE, &date0)
+	term := fmt.Sprintf("{| b_cfg := %s; b_dim := %s; b_group := %s; b_ref := %s; b_got := %s; b_failed := %s; b_members := %s; b_images := %s; b_manifests := %s; b_date0 := %s; b_arch_created := %s; b_index_created := %s |}",
 		gal.Str(cfg), gal.Str(got.Cell.Dim), gal.Str(got.Cell.group()), galArts(ref.Arts), galArts(got.Arts), gal.Bool(got.Err != ""),
-		gal.StrList(got.Members), gal.List(imgs), gal.StrList(manifests))
+		gal.StrList(got.Members), gal.List(imgs), gal.StrList(manifests), gal.Z(date0), zList(got.Dates.Arch), zList(got.Dates.Index))
 	desc := map[string]any{"configuration": cfg, "dimension": got.Cell.Dim, "group": got.Cell.group(),
 		"reference_cmd": ref.Cmd, "this_cmd": got.Cmd, "first_differing_artifact": firstDiff(ref.Arts, got.Arts), "error": got.Err,
-		"seconds_between_starts": got.Started.Sub(ref.Started).Seconds()}
+		"seconds_between_starts": got.Started.Sub(ref.Started).Seconds(), "created_per_architecture": got.Dates.Arch, "created_index": got.Dates.Index}
 	return gal.Case{Term: term, Desc: desc, Class: cfg + "/" + got.Cell.group() + "/" + got.Cell.Dim, Trivial: got.Cell.Dim == "reference", Key: cfg + "|" + got.Cmd}
 }
 
